@@ -8,7 +8,7 @@ import z3
 from . import sym
 from .core import PathEnd, PyBreak, PyContinue, PyRaise, PyReturn
 from .interp import EmptyLiteral, I, ModAttr, StarArg, UFunc, floordiv
-from .model import BoundMethod, ClassRef, Closure, Env, FuncRef, ModRef, PyObj, SpecFunc, _mangle
+from .model import BoundMethod, ClassRef, Closure, Env, FuncRef, ModRef, Partial, PyObj, SpecFunc, _mangle
 from .sym import (NONE, TAny, TArr, TBool, TBytes, TDict, TEnum, TFunc, TInt, TList, TNone, TOpt, TRange, TReal,
                   TRef, TSet, TStr, TTuple, Unsupported, V)
 
@@ -19,6 +19,21 @@ def _is_logger(node):
     if isinstance(node, ast.Name) and node.id == "logger":
         return True
     return isinstance(node, ast.Attribute) and node.attr in ("_logger", "__logger") and isinstance(node.value, ast.Name) and node.value.id == "self"
+
+
+def nonlocal_names(fn):
+    """names declared `nonlocal` in the body of the nested function `fn` (not looking into functions nested deeper)"""
+    out = []
+    todo = list(fn.body)
+    while todo:
+        st = todo.pop()
+        if isinstance(st, ast.Nonlocal):
+            out.extend(st.names)
+        elif isinstance(st, (ast.FunctionDef, ast.AsyncFunctionDef, ast.ClassDef, ast.Lambda)):
+            continue
+        else:
+            todo.extend(c for c in ast.iter_child_nodes(st) if isinstance(c, ast.stmt))
+    return out
 
 
 class CallMixin:
@@ -130,6 +145,11 @@ class CallMixin:
             return self.call_method(callee.recv, callee.name, args, kwargs, node)
         if isinstance(callee, Closure):
             return self.call_closure(callee, args, kwargs)
+        if isinstance(callee, Partial):
+            # functools.partial: stored positional arguments first, stored keywords overridden by the call's keywords
+            kw = dict(callee.kwargs)
+            kw.update(kwargs)
+            return self.call_value(callee.fn, list(callee.args) + list(args), kw, node, env)
         if isinstance(callee, ModAttr):
             return self.module_call(callee, args, kwargs, node)
         if isinstance(callee, V) and callee.ty == TFunc:
@@ -212,7 +232,23 @@ class CallMixin:
         loc.update(self.bind_args(n, None, args, kwargs, clo.env.module, None))
         e2 = clo.env.child(loc)
         e2.contract, e2.fname = None, n.name
-        return self.run_body(n, e2)
+        nl = nonlocal_names(n)
+        if nl and getattr(self, "loop_stack", None):
+            # (added for the TLS parsers) the closure rebinds variables of its defining scope and is called from the
+            # "one arbitrary iteration" of a loop: sound only if that loop's head havocked those variables (stmts.loop
+            # does so for closures that are locals / parameters of the frame the loop runs in)
+            hv = getattr(self, "nonlocal_havocked", set())
+            for name in nl:
+                if (id(clo.env.locals), name) not in hv:
+                    raise Unsupported("closure %s rebinds nonlocal %s inside a loop that did not havoc it" % (n.name, name))
+        try:
+            return self.run_body(n, e2)
+        finally:
+            # `nonlocal x`: assignments to x in the nested function rebind the variable of the DEFINING scope (also when
+            # the nested function is left by an exception)
+            for name in nl:
+                if name in e2.locals:
+                    clo.env.locals[name] = e2.locals[name]
 
     def module_call(self, ma: ModAttr, args, kwargs, node):
         key = "%s.%s" % (ma.mod, ma.attr)
@@ -339,6 +375,13 @@ class CallMixin:
             contract = self.registry.lookup(static_cls, fnode.name)
         if contract is None:
             contract = self.registry.lookup(clsname, fnode.name, module.rel)
+        cs_ = self.registry.contracts.get("%s!call" % (("%s.%s" % (static_cls or clsname, fnode.name)) if (static_cls or clsname) else fnode.name))
+        if cs_ is not None and not self.spec:
+            # "<Cls.fn>!call": CALL-SITE SUMMARY of a function whose own contract (key "<Cls.fn>") is verified elsewhere - a
+            # separate contract object derived from it (e.g. exception classes renamed to what the caller's callbacks
+            # raise, total heap havoc), so that refining the view of callers never touches what the function is verified
+            # against (before, contracts/quic_noraise.py mutated the contract of tls.Context.handle_message in place)
+            contract = cs_
         if recv is None and cls is not None:
             # unbound call Class.method(obj, ...) or staticmethod
             is_static = any(getattr(d, "id", None) == "staticmethod" for d in fnode.decorator_list)
@@ -371,7 +414,9 @@ class CallMixin:
         saved_env = getattr(self, "cur_env", None)
         try:
             env.anchors = {}
-            env.local_types = {}
+            # types of `xs = []` locals declared by the inlined callee's own contract (locals=) apply to its inlined body too
+            c_ = getattr(env, "contract", None)
+            env.local_types = {n: self.types.parse_str(t, env.module) for n, t in c_.local_types.items()} if c_ is not None else {}
             return self.run_body(fnode, env)
         finally:
             self.depth -= 1
@@ -393,6 +438,12 @@ class CallMixin:
             raise Unsupported("*args")
         if info.is_enum:
             v = args[0]
+            if not self.spec and isinstance(v, V) and v.ty != TEnum(info.name):
+                # Enum(value) looks the value up among the members: ValueError("x is not a valid <Enum>") for any other
+                # value (added for C05: an Enum constructor applied to a peer-supplied integer is a raise site)
+                iv = sym.as_int(v)
+                vals = [x if isinstance(x, int) else list(info.enum_members).index(k) for k, x in info.enum_members.items()]
+                self.fail(z3.Or(*[iv == z3.IntVal(int(x)) for x in vals]) if vals else z3.BoolVal(False), "ValueError", "%s(value): not a valid member" % info.name, node)
             return V(TEnum(info.name), sym.as_int(v))
         if self.index.exc_is_subclass(info.name, "BaseException"):
             # exception object as a value (e.g. passed to a helper that raises it later): a python-level handle that
@@ -425,7 +476,7 @@ class CallMixin:
                             vals[n] = self.eval(d, Env({}, c.module))
                     v = vals[n]
                     ty = model.fields[n][1]
-                    v = self.materialize(v, ty) if isinstance(v, EmptyLiteral) else v
+                    v = self.materialize(v, ty) if isinstance(v, EmptyLiteral) else self.from_any(v, ty)
                     if not isinstance(v, V):
                         v = V(TFunc, self.ctx.fresh_const(z3.IntSort(), "fn")) if ty in (TFunc, TOpt(TFunc)) else v
                     self.write_field(obj, n, v)
@@ -877,6 +928,17 @@ class CallMixin:
             raise Unsupported("is_instance of %s" % v.ty)
         return sym.mk_bool(self.heap.read("object", "__class__", TInt, v.t).t == self.class_id(node.args[1].value))
 
+    def sp_isa_opaque(self, node, env):
+        """isa_opaque(x, 'Name'): the opaque (Any / Optional[Any]) value x is an instance of the external class Name - the
+        same uninterpreted predicate that isinstance(x, mod.Name) evaluates to in code (bi_isinstance); None is no instance"""
+        v = self.evalv(node.args[0], env)
+        name = node.args[1].value
+        if v.ty == TAny:
+            return sym.mk_bool(self.isinstance_of(v.t, name))
+        if isinstance(v.ty, TOpt) and v.ty.inner == TAny:
+            return sym.mk_bool(z3.And(z3.Not(sym.opt_is_none(v)), self.isinstance_of(sym.opt_val(v).t, name)))
+        raise Unsupported("isa_opaque of %s" % v.ty)
+
     def sp_cast(self, node, env):
         """cast(obj, 'Cls'): view a reference as an instance of a subclass (spec only; the clause should guard it with
         isinstance knowledge of its own)."""
@@ -912,6 +974,21 @@ class CallMixin:
         return sym.mk_bool(a.t == b.t)
 
     # ------------------------------------------------------------------ python builtins
+    def bi_partial(self, node, env):
+        """functools.partial(fn, *args, **kwargs) (tls.py: `partial(pull_key_share, buf)` as item parser of pull_list)"""
+        if not node.args or any(isinstance(a, ast.Starred) for a in node.args):
+            raise Unsupported("partial()")
+        fn = self.eval(node.args[0], env)
+        if not isinstance(fn, PyObj):
+            raise Unsupported("partial() of a non-function value")
+        args = [self.eval(a, env) for a in node.args[1:]]
+        kwargs = {}
+        for k in node.keywords:
+            if k.arg is None:
+                raise Unsupported("**kwargs")
+            kwargs[k.arg] = self.eval(k.value, env)
+        return Partial(fn, args, kwargs)
+
     def bi_len(self, node, env):
         v = self.evalv(node.args[0], env)
         return self.length(v, node)
@@ -1031,10 +1108,8 @@ class CallMixin:
             if ty == TAny or (isinstance(ty, TOpt) and ty.inner == TAny):
                 # opaque external object: its dynamic class is unknown; isinstance is an uninterpreted predicate of
                 # (object handle, class name) - deterministic, otherwise unconstrained; None is an instance of nothing
-                ids = self.registry.__dict__.setdefault("_isinst_ids", {})
-                f = z3.Function("isinstance_of", z3.IntSort(), z3.IntSort(), z3.BoolSort())
                 h = sym.opt_val(v).t if isinstance(ty, TOpt) else v.t
-                r = z3.Or(*[f(h, z3.IntVal(ids.setdefault(n, len(ids)))) for n in names])
+                r = z3.Or(*[self.isinstance_of(h, n) for n in names])
                 if isinstance(ty, TOpt):
                     r = z3.And(z3.Not(sym.opt_is_none(v)), r)
                 return sym.mk_bool(r)
